@@ -12,20 +12,46 @@ abbrev Bytes := List UInt8
 
 /-! ### lines -/
 
+/-- a byte other than newline joins the first line of what follows it (or the rest, if no line
+    follows) -/
+def consFirst (b : UInt8) : List Bytes × Bytes → List Bytes × Bytes
+  | ([], t) => ([], b :: t)
+  | (l :: ls, t) => ((b :: l) :: ls, t)
+
 /-- split after every newline: the complete lines (each ends in its only '\n') and the
-    unterminated rest.  A byte other than newline joins the first line of what follows it (or
-    the rest, if no line follows). -/
+    unterminated rest -/
 def split : Bytes → List Bytes × Bytes
   | [] => ([], [])
   | b :: bs =>
-    if b = 10 then ([10] :: (split bs).1, (split bs).2)
-    else
-      match split bs with
-      | ([], t) => ([], b :: t)
-      | (l :: ls, t) => ((b :: l) :: ls, t)
+    if b = 10 then ([10] :: (split bs).1, (split bs).2) else consFirst b (split bs)
 
 def lines (s : Bytes) : List Bytes := (split s).1
 def tail (s : Bytes) : Bytes := (split s).2
+
+/-! ### the domain of C05/C06 -/
+
+/-- every line including its newline, and the unterminated rest, is at most `max` bytes long;
+    `k` = length of the current line so far -/
+def runsWithin (max : Nat) : Bytes → Nat → Bool
+  | [], k => decide (k ≤ max)
+  | b :: bs, k =>
+    if b = 10 then decide (k + 1 ≤ max) && runsWithin max bs 0 else runsWithin max bs (k + 1)
+
+/-- "lines do not exceed 128 KiB" -/
+def maxLine : Nat := 131072
+
+/-- `pat` occurs in `s` -/
+def occurs (pat : Bytes) : Bytes → Bool
+  | [] => pat.isEmpty
+  | b :: bs => pat.isPrefixOf (b :: bs) || occurs pat bs
+
+/-- the stated domain: text free of NUL bytes whose lines do not exceed 128 KiB and (standard
+    output only: `marker = some m`) do not contain the reserved return-code marker -/
+def Dom05 (marker : Option Bytes) (s : Bytes) : Bool :=
+  s.all (· ≠ 0) && runsWithin maxLine s 0 &&
+  (match marker with
+   | none => true
+   | some m => (lines s).all fun l => !occurs m l)
 
 /-! ### labels (C06) -/
 
